@@ -402,6 +402,20 @@ func (c *Compiler) compileBool(node *ast.Bool) error {
 	return nil
 }
 
+// leavesValue reports whether the code compiled for a statement leaves a value
+// on the stack. Besides expressions this is the case for named function
+// definitions, which evaluate to the function so that they can also be used
+// in expression position.
+func leavesValue(stmt ast.Node) bool {
+	if stmt.IsExpression() {
+		return true
+	}
+	if fn, ok := stmt.(*ast.Func); ok && fn.Name() != nil {
+		return true
+	}
+	return false
+}
+
 func (c *Compiler) compileProgram(node *ast.Program) error {
 	statements := node.Statements()
 	count := len(statements)
@@ -414,7 +428,7 @@ func (c *Compiler) compileProgram(node *ast.Program) error {
 				return err
 			}
 			if i < count-1 {
-				if stmt.IsExpression() {
+				if leavesValue(stmt) {
 					c.emit(op.PopTop)
 				}
 			}
@@ -422,6 +436,9 @@ func (c *Compiler) compileProgram(node *ast.Program) error {
 		// Guarantee that the program evaluates to a value
 		lastStatement := statements[count-1]
 		if !lastStatement.IsExpression() {
+			if leavesValue(lastStatement) {
+				c.emit(op.PopTop)
+			}
 			c.emit(op.Nil)
 		}
 	}
@@ -445,7 +462,7 @@ func (c *Compiler) compileBlock(node *ast.Block) error {
 				return err
 			}
 			if i < count-1 {
-				if stmt.IsExpression() {
+				if leavesValue(stmt) {
 					c.emit(op.PopTop)
 				}
 			}
@@ -453,6 +470,9 @@ func (c *Compiler) compileBlock(node *ast.Block) error {
 		// Guarantee that the block evaluates to a value
 		lastStatement := statements[count-1]
 		if !lastStatement.IsExpression() {
+			if leavesValue(lastStatement) {
+				c.emit(op.PopTop)
+			}
 			c.emit(op.Nil)
 		}
 	}
@@ -472,7 +492,7 @@ func (c *Compiler) compileFunctionBlock(node *ast.Block) error {
 			return err
 		}
 		if i < count-1 {
-			if stmt.IsExpression() {
+			if leavesValue(stmt) {
 				c.emit(op.PopTop)
 			}
 		}
@@ -1606,7 +1626,7 @@ func (c *Compiler) compileFor(node *ast.For) error {
 			return err
 		}
 		// If the init statement is an expression, pop the value so its ignored
-		if init.IsExpression() {
+		if leavesValue(init) {
 			c.emit(op.PopTop)
 		}
 	}
@@ -1641,7 +1661,7 @@ func (c *Compiler) compileFor(node *ast.For) error {
 			return err
 		}
 		// If the post statement is an expression, pop the value so its ignored
-		if post.IsExpression() {
+		if leavesValue(post) {
 			c.emit(op.PopTop)
 		}
 	}
